@@ -9,3 +9,5 @@ import WowVerif.Props.C16
 #print axioms Wv.Blp.pack1_length
 #print axioms Wv.Blp.unpack4_pack4
 #print axioms Wv.Blp.pack4_length
+#print axioms Wv.Blp.header_roundtrip
+#print axioms Wv.Blp.header_size
